@@ -16,9 +16,21 @@ def main():
     ap.add_argument('--no-build', action='store_true')
     a = ap.parse_args()
     seed = int(os.environ.get('VERIF_SEED', '0') or 0)
+    tier = a.tier
+    if a.replay:
+        # a replay file records the seed and tier of the run that produced it: generation is a deterministic function of
+        # (seed, tier), so re-running with them reproduces the reported case; checks with a dedicated single-case replay
+        # (C01, C03, C04) additionally re-run just that case
+        import json
+        try:
+            rp = json.load(open(a.replay))
+            seed = int(rp.get('seed', seed))
+            tier = rp.get('tier', tier)
+        except Exception:
+            pass
     try:
         mod = importlib.import_module('props.' + a.pid.lower())
-        chk = common.Check(a.pid, a.tier, seed, getattr(mod, 'LEVEL', 'proof'), a.replay)
+        chk = common.Check(a.pid, tier, seed, getattr(mod, 'LEVEL', 'proof'), a.replay)
         chk.no_build = a.no_build
         code = mod.run(chk)
         sys.stdout.flush()
